@@ -25,6 +25,7 @@ def dispatch (line : String) : String :=
     | "tg_render" => cmdTgRender args
     | "static_getitem" => cmdStaticGetitem args
     | "tg_eval" => cmdTgEval args
+    | "tg_evald" => cmdTgEvalData args
     | "tg_parse" => cmdTgParse args
     | "searchsorted" => cmdSearchsorted args
     | "intop" => cmdIntOp args
